@@ -90,6 +90,31 @@ func rawHandler(w http.ResponseWriter, r *http.Request) {
 	_, _ = io.WriteString(w, "verif-ran\n")
 }
 
+// poison: a handler that raises the AuthToken of its own request to Self after noting what it was
+// given. The token belongs to that request only; nothing a handler does to it may change what later
+// requests are granted (the model ignores it).
+func poison(ar *api.Request) {
+	if ar != nil && ar.AuthToken != nil {
+		ar.AuthToken.Read = api.PermitSelf
+		ar.AuthToken.Write = api.PermitSelf
+	}
+}
+
+func poisonHandler(w http.ResponseWriter, r *http.Request) {
+	ar := api.GetAPIRequest(r)
+	noteRun(r, ar)
+	poison(ar)
+	w.WriteHeader(http.StatusOK)
+	_, _ = io.WriteString(w, "verif-ran\n")
+}
+
+var poisonHandlers = []hdl{
+	{Path: "/verif/poison/1/1", Kind: "wrap", Rr: pAnyone, Rw: pAnyone},
+	{Path: "/verif/poison/-1/-1", Kind: "wrap", Rr: pDynamic, Rw: pDynamic},
+	{Path: "/verif/poison/2/2", Kind: "wrap", Rr: pUser, Rw: pUser},
+	{Path: "/api/v1/verif/poison/action/1/1", Kind: "ep-action", Rr: pAnyone, Rw: pAnyone},
+}
+
 var errDenied = fmt.Errorf("%wverif says no", api.ErrAPIAccessDeniedMessage)
 
 func authenticator(r *http.Request, _ *http.Server) (*api.AuthToken, error) {
@@ -162,6 +187,16 @@ func registerHandlers(c *vlib.Ctx) {
 		}
 	}
 	api.RegisterHandleFunc(plainHandler.Path, rawHandler)
+	for _, h := range poisonHandlers {
+		if h.Kind == "wrap" {
+			api.RegisterHandler(h.Path, api.WrapInAuthHandler(poisonHandler, api.Permission(h.Rr), api.Permission(h.Rw)))
+			continue
+		}
+		if err := api.RegisterEndpoint(api.Endpoint{Path: strings.TrimPrefix(h.Path, "/api/v1/"), Read: api.Permission(h.Rr), Write: api.Permission(h.Rw), Name: "verif poison",
+			ActionFunc: func(ar *api.Request) (string, error) { noteRun(ar.Request, ar); poison(ar); return "verif-ran", nil }}); err != nil {
+			c.EngineError("RegisterEndpoint(%s): %v", h.Path, err)
+		}
+	}
 
 	mkRecord := func() record.Record {
 		r := &api.EndpointBridgeResponse{MimeType: "text/plain", Body: "verif"}
@@ -728,6 +763,8 @@ var tableKeys = []keySpec{
 	{Key: "ab", Read: "user", Write: "user"},
 	{Key: "kDup", Read: "admin", Write: "admin"},
 	{Key: "kDup", Read: "user", Write: "user"},
+	{Key: " ", Read: "admin", Write: "admin"},      // a key that is one blank: a key like any other, it is not the empty key
+	{Key: " kPad ", Read: "admin", Write: "admin"}, // a key with blanks around it is not the key without them
 }
 
 func dyn(authn authnSpec) *reqCase {
@@ -797,6 +834,11 @@ func credentials(full bool) []cred {
 		{Name: "bearer-unknown-2B", Authz: "Bearer xy", Authn: unset},
 		{Name: "bearer-unknown-1B", Authz: "Bearer x", Authn: unset},
 		{Name: "bearer-unknown-0B", Authz: "Bearer ", Authn: unset},
+		{Name: "bearer-blank-key", Authz: "Bearer  ", Authn: unset},
+		{Name: "bearer-padded-key-exact", Authz: "Bearer  kPad ", Authn: unset},
+		{Name: "bearer-padded-key-without-padding", Authz: "Bearer kPad", Authn: unset},
+		{Name: "basic-blank-user", Authz: "Basic " + b64(" :"), Authn: unset},
+		{Name: "basic-not-base64-long", Authz: "Basic !!!not-base64!!!", Authn: unset},
 		// API keys, Basic (key = user + pass)
 		{Name: "basic-admin-user-part", Authz: "Basic " + b64("kAdmin:"), Authn: unset},
 		{Name: "basic-admin-pass-part", Authz: "Basic " + b64(":kAdmin"), Authn: unset},
@@ -1275,6 +1317,7 @@ func histAlphabet(c *vlib.Ctx) []op {
 		{Op: "req", Req: req(hA, "GET", bearer("kA"))},
 		{Op: "req", Req: req(hU, "PUT", bearer("kA"))},
 		{Op: "req", Req: req(hU, "GET", bearer("kB"))},
+		{Op: "req", Req: req(hA, "GET", cred{Authz: "Basic Og==", Authn: unset})}, // empty user and password: the empty key, never a configured one
 		// session creation
 		{Op: "req", Req: req(hD, "GET", authn(pUser, pUser)), Save: "s1"},
 		{Op: "req", Req: req(hU, "GET", authn(pAdmin, pAdmin)), Save: "s2"},
@@ -1284,7 +1327,7 @@ func histAlphabet(c *vlib.Ctx) []op {
 		// key configuration
 		{Op: "keys", Keys: []keySpec{{Key: "kA", Read: "admin", Write: "admin"}}},
 		{Op: "keys", Keys: []keySpec{{Key: "kA", Read: "user", Write: "user", Expires: "+9m"}, {Key: "kB", Read: "admin", Write: "admin"}}},
-		{Op: "keys", Keys: []keySpec{{Key: "kA", Read: "admin", Write: "admin", Expires: "-1h"}, {Key: "kB", Read: "user"}}},
+		{Op: "keys", Keys: []keySpec{{Key: "kA", Read: "admin", Write: "admin", Expires: "-1h"}, {Key: "kB", Read: "user"}, {Key: " ", Read: "admin", Write: "admin"}}},
 		{Op: "keys", Keys: nil},
 		// session reset, cleaning, dev mode
 		{Op: "req", Req: reset("s1")},
@@ -1443,6 +1486,64 @@ func phaseUnwritableConfig(c *vlib.Ctx, w *world) {
 	c.Sample(map[string]any{"phase": "unwritable-config", "history": strings.Join(sm, " ; ") + " ; makeConfigFileUnwritable ; keys[] ; req{... Bearer kA} ..."})
 }
 
+// phasePoisoning: histories of length >= 2 whose first request reaches a handler that raises the
+// AuthToken of its own request (anonymously on a public handler, or with a credential on a
+// protected one); afterwards every credential x method x requirement is judged as usual: what a
+// handler did to its token must not change what any later request is granted.
+func phasePoisoning(c *vlib.Ctx, w *world) {
+	full := !c.Quick()
+	creds := credentials(full)
+	pr := func(h hdl, method string, cr cred) op {
+		return op{Op: "req", Req: mkReq(h, meth{method, ""}, cr, "", hostPort)}
+	}
+	pAny, pDyn, pUsr, pEp := poisonHandlers[0], poisonHandlers[1], poisonHandlers[2], poisonHandlers[3]
+	none := cred{Authn: unset}
+	firsts := [][]op{
+		{pr(pAny, "GET", none)},
+		{pr(pAny, "POST", none)},
+		{pr(pEp, "GET", none)},
+		{pr(pDyn, "GET", none), pr(pDyn, "PUT", cred{Authn: authnSpec{Kind: "nil"}})},
+		{pr(pAny, "GET", cred{Authz: "Bearer kAdmin", Authn: unset}), pr(pUsr, "POST", cred{Authz: "Bearer kUser", Authn: unset})},
+		{pr(pDyn, "GET", cred{Cookie: ck("$s:sUser"), Authn: unset}), pr(pAny, "DELETE", cred{Cookie: ck("$s:sUser"), Authn: unset})},
+		{pr(pDyn, "GET", cred{Authn: authnSpec{Kind: "tok", R: pUser, W: pUser}}), pr(pAny, "HEAD", cred{Bridge: true, Authn: unset})},
+	}
+	hs := []hdl{wrapH(pAnyone, pAnyone), wrapH(pDynamic, pDynamic), wrapH(pUser, pUser), wrapH(pAdmin, pAdmin), wrapH(pSelf, pSelf), wrapH(pUser, pAdmin), plainHandler, epH("ep-action", pUser, pAdmin), pAny}
+	ms := []meth{{"GET", ""}, {"POST", ""}, {"HEAD", ""}, {"DELETE", ""}, {"OPTIONS", "PUT"}}
+	if full {
+		hs = []hdl{plainHandler, wrapH(pUser, pAdmin), wrapH(pAdmin, pUser), epH("ep-action", pUser, pAdmin), epH("ep-handler", pDynamic, pSelf), pAny, pDyn}
+		for _, h := range wrapHandlers {
+			if h.Rr == h.Rw {
+				hs = append(hs, h)
+			}
+		}
+		ms = methods
+	}
+	for i, first := range firsts {
+		if c.Expired() {
+			return
+		}
+		for _, onFresh := range []bool{false, true} {
+			var base []op
+			if !onFresh {
+				base = tableWorld(false, false)
+			} else if i > 2 {
+				continue // credentials of the first requests need the standing world
+			}
+			base = append(base, first...)
+			block(c, w, "poisoning", base, func(emit func(*reqCase)) {
+				for _, h := range hs {
+					for _, m := range ms {
+						for _, cr := range creds {
+							emit(mkReq(h, m, cr, "", hostPort))
+						}
+					}
+				}
+			})
+		}
+	}
+	c.Sample(map[string]any{"phase": "poisoning", "history": firsts[0][0].String() + " ; req{GET /verif/w/3/3 Host:api.test:817 authn=nil}"})
+}
+
 // ---------- main ----------
 
 func setup(c *vlib.Ctx) (*world, func()) {
@@ -1502,7 +1603,7 @@ func main() {
 			return
 		}
 		watchdog(c)
-		c.Rule("non-trivial = a request cell in which a credential, an Origin header, the bridge address or dev mode is present (the decision depends on more than the declared permission), and every history state first reached at depth >= 3")
+		c.Rule("non-trivial = a request cell in which a credential, an Origin header, the bridge address or dev mode is present (the decision depends on more than the declared permission), and every history state first reached at depth >= 3; the handler alphabet includes handlers that raise the AuthToken of their own request (poisoning histories of length >= 2), the key alphabet blank and blank-padded key entries together with empty / undecodable Basic credentials")
 		c.Assume("for OPTIONS requests the method class is that of the Access-Control-Request-Method header (api.getEffectiveMethod); the statement names classes only for GET/HEAD/POST/PUT/DELETE")
 		c.Assume("a handler declaring Anyone runs without credentials being evaluated and sees the anonymous token (documented: anyone can execute the operation without any authentication)")
 		c.Assume("a session is live until 5 minutes after its creation or its last use as the deciding credential (sliding sessionCookieTTL)")
@@ -1517,7 +1618,7 @@ func main() {
 		for _, ph := range []struct {
 			name string
 			f    func(*vlib.Ctx, *world)
-		}{{"table", phaseTable}, {"endpoints", phaseEndpoints}, {"devmode+origins", phaseDevAndOrigins}, {"header-strings", phaseHeaderStrings}, {"bridge", phaseBridge}, {"unwritable-config", phaseUnwritableConfig}, {"histories", phaseHistories}} {
+		}{{"table", phaseTable}, {"endpoints", phaseEndpoints}, {"devmode+origins", phaseDevAndOrigins}, {"header-strings", phaseHeaderStrings}, {"bridge", phaseBridge}, {"unwritable-config", phaseUnwritableConfig}, {"poisoning", phasePoisoning}, {"histories", phaseHistories}} {
 			t0, s0 := time.Now(), w.steps
 			ph.f(c, w)
 			c.Extra("phase "+ph.name, fmt.Sprintf("%d requests, %.1fs", w.steps-s0, time.Since(t0).Seconds()))
